@@ -38,7 +38,8 @@ RULE = ("case = (driver family, generic|Hamiltonian twin, scheme order, linear s
         "template + parameters, direction, xtol, gtol, span, requested step) through Integrator.integrate(..., event_fn, "
         "event_cfg, event_options); non-trivial = the expected result is preceded by >= 1 crossing in the filtered-out "
         "direction (incl. 'all crossings filtered => end of span'), or the expected crossing lies within 1e-9*h of a step "
-        "boundary of a fixed grid, or g(t0,y0) == 0 exactly / |g(t0,y0)| <= 1e-9*scale(g); distinct by full input")
+        "boundary of a fixed grid, or g(t0,y0) == 0 exactly / |g(t0,y0)| <= 1e-9*scale(g); one third of the Hamiltonian cases of "
+        "the RK families are also run through the generic driver (same problem) and the two results compared; distinct by full input")
 ASSUMPTIONS = [
     "sign-change precondition, enforced by construction: grid spacing / max_step is derived from the exact crossing times "
     "so that consecutive zeros of g (and t0 when g(t0,y0)==0) are > 2.5 steps apart and |dg/dt| does not drop below half "
